@@ -23,8 +23,9 @@ TraceDev == IF "TRACE_DEV" \in DOMAIN IOEnv /\ IOEnv.TRACE_DEV = "StaleTempAppen
 
 VARIABLES l,      \* next line
           mode,   \* "run" | "skip"
-          snap    \* saved state (mark / rewind)
-tvars == <<vars, l, mode, snap>>
+          snap,   \* saved state (mark / rewind)
+          snap0   \* the scenario's state after setup (restart: the same files again, for a run with an injected fault)
+tvars == <<vars, l, mode, snap, snap0>>
 
 FileOf(r) == IF r.ex THEN [ex |-> TRUE, hdr |-> r.hdr, ents |-> r.ents,
                             dur |-> IF r.hdr = 0 THEN -1 ELSE Len(r.ents)]
@@ -42,7 +43,7 @@ SetState(s) ==
 TraceInit ==
   /\ main = NoFile /\ temp = NoFile /\ ref = Empty /\ pc = "idle" /\ ep = "" /\ idx = Empty /\ todo = {}
   /\ appends = 0 /\ runs = 0 /\ last = [a |-> "Init", ep |-> ""]
-  /\ l = 1 /\ mode = "run" /\ snap = Blank
+  /\ l = 1 /\ mode = "run" /\ snap = Blank /\ snap0 = Blank
 
 Line == Trace[l]
 Is(e) == l <= Len(Trace) /\ Line.ev = e
@@ -53,7 +54,7 @@ Holds ==
     /\ (last'.a \in {"Rename", "Abort", "Skip", "Crash"} \/ pc' # "idle") => Load(main') = ref'
     /\ pc' \in {"writing", "synced", "closed"} =>
          \A i \in DOMAIN temp'.ents : temp'.ents[i][2] > 0 /\ temp'.ents[i][2] = idx'[temp'.ents[i][1]]
-    /\ pc' = "closed" => temp'.hdr = 2 /\ temp'.dur = Len(temp'.ents)
+    /\ last'.a = "Rename" => main'.hdr = 2 /\ main'.dur = Len(main'.ents)
 
 \* what the driver observed on the real files agrees with the spec's files
 Observed ==
@@ -62,18 +63,22 @@ Observed ==
   /\ Line.temp_ex <=> temp'.ex
   /\ (Line.srv_ok /\ Load(main') # ERR) => MapOf(Line.srv) = Load(main')
 
-Step(A) == mode = "run" /\ A /\ Holds /\ l' = l + 1 /\ UNCHANGED <<mode, snap>>
+Step(A) == mode = "run" /\ A /\ Holds /\ l' = l + 1 /\ UNCHANGED <<mode, snap, snap0>>
 
+SetupState == [Blank EXCEPT !.main = IF Line.main_ex THEN [ex |-> TRUE, hdr |-> 2, ents |-> Line.hist, dur |-> Len(Line.hist)]
+                                         ELSE NoFile,
+                              !.temp = FileOf(Line.temp),
+                              !.ref = Apply(Empty, Line.hist)]
 TrSetup ==
   /\ Is("setup")
-  /\ SetState([Blank EXCEPT !.main = IF Line.main_ex THEN [ex |-> TRUE, hdr |-> 2, ents |-> Line.hist, dur |-> Len(Line.hist)]
-                                     ELSE NoFile,
-                            !.temp = FileOf(Line.temp),
-                            !.ref = Apply(Empty, Line.hist)])
-  /\ l' = l + 1 /\ mode' = "run" /\ snap' = Blank
+  /\ SetState(SetupState)
+  /\ l' = l + 1 /\ mode' = "run" /\ snap' = Blank /\ snap0' = SetupState
 
-TrMark == Is("mark") /\ mode = "run" /\ snap' = State /\ l' = l + 1 /\ UNCHANGED <<vars, mode>>
-TrRewind == Is("rewind") /\ mode = "run" /\ SetState(snap) /\ l' = l + 1 /\ UNCHANGED <<mode, snap>>
+\* the driver put the scenario's initial files back (for a run with an injected fault)
+TrRestart == Is("restart") /\ mode = "run" /\ pc = "idle" /\ SetState(snap0) /\ l' = l + 1 /\ UNCHANGED <<mode, snap, snap0>>
+
+TrMark == Is("mark") /\ mode = "run" /\ snap' = State /\ l' = l + 1 /\ UNCHANGED <<vars, mode, snap0>>
+TrRewind == Is("rewind") /\ mode = "run" /\ SetState(snap) /\ l' = l + 1 /\ UNCHANGED <<mode, snap, snap0>>
 
 TrAppend == Is("append") /\ Step(AppendMany(Line.ents))
 TrStart == Is("start") /\ Step(Start(Line.ep) /\ MapOf(Line.idx) = Load(main))
@@ -93,6 +98,8 @@ TrEnd ==
                [] Line.res = "skipped" -> IF pc = "idle" THEN UNCHANGED vars ELSE Skip
                [] Line.res = "error" -> IF pc = "idle" THEN UNCHANGED vars ELSE Abort(Line.temp_ex)
                [] OTHER -> FALSE
+          \* what the entry point reported agrees with what happened to the files
+          /\ Line.reported # "" => ((Line.reported = "compacted") <=> (Line.res = "compacted"))
           /\ Observed)
 
 TrCrash == Is("crash") /\ Step(Crash(Line.power, Line.torn) /\ Observed)
@@ -103,15 +110,16 @@ TrCheck == Is("check") /\ Step(pc = "idle" /\ UNCHANGED vars /\ Observed /\ (Dev
 TrDone ==
   /\ Is("done") /\ mode = "run" /\ pc = "idle"
   /\ PrintT(ToJson([ok |-> Line.id]))
-  /\ l' = l + 1 /\ UNCHANGED <<vars, mode, snap>>
+  /\ l' = l + 1 /\ UNCHANGED <<vars, mode, snap, snap0>>
 
 \* no behaviour explains this scenario: abandon it, resume at the next setup line
 NoGiveUp == "TRACE_NOGIVEUP" \in DOMAIN IOEnv /\ IOEnv.TRACE_NOGIVEUP = "1"   \* (debugging aid)
-GiveUp == ~NoGiveUp /\ mode = "run" /\ l <= Len(Trace) /\ Line.ev # "setup" /\ SetState(Blank) /\ mode' = "skip" /\ snap' = Blank /\ l' = l
-SkipLine == mode = "skip" /\ l <= Len(Trace) /\ Line.ev # "setup" /\ l' = l + 1 /\ UNCHANGED <<vars, mode, snap>>
+GiveUp == ~NoGiveUp /\ mode = "run" /\ l <= Len(Trace) /\ Line.ev # "setup" /\ SetState(Blank) /\ mode' = "skip" /\ snap' = Blank
+          /\ snap0' = Blank /\ l' = l
+SkipLine == mode = "skip" /\ l <= Len(Trace) /\ Line.ev # "setup" /\ l' = l + 1 /\ UNCHANGED <<vars, mode, snap, snap0>>
 
 TraceNext ==
-  \/ TrSetup \/ TrMark \/ TrRewind \/ TrAppend \/ TrStart \/ TrCleanup \/ TrCreate \/ TrOpenAppend
+  \/ TrSetup \/ TrRestart \/ TrMark \/ TrRewind \/ TrAppend \/ TrStart \/ TrCleanup \/ TrCreate \/ TrOpenAppend
   \/ TrHeader \/ TrWrite \/ TrSync \/ TrClose \/ TrRename \/ TrEnd \/ TrCrash \/ TrCheck \/ TrDone
   \/ GiveUp \/ SkipLine
 
